@@ -14,12 +14,15 @@ import (
 
 	"pgregory.net/rapid"
 
+	appserver "tunnox-core/internal/app/server"
 	"tunnox-core/internal/cloud/models"
 	"tunnox-core/internal/cloud/repos"
+	"tunnox-core/internal/command"
 	"tunnox-core/internal/core/storage/hybrid"
 	"tunnox-core/internal/core/storage/memory"
 	"tunnox-core/internal/httpservice"
 	"tunnox-core/internal/httpservice/modules/domainproxy"
+	"tunnox-core/internal/packet"
 	"tunnox-core/internal/protocol/httptypes"
 	"tunnox-core/verif/vkit"
 	"tunnox-core/verif/vkit/miniserver"
@@ -49,6 +52,7 @@ type PStep struct {
 	Host   string `json:"host,omitempty"`   // request: literal Host header
 	Kind   string `json:"kind,omitempty"`   // request: small | large | websocket
 	Stale  bool   `json:"stale,omitempty"`  // delete: use the id of the previous (already deleted) mapping of the name
+	Via    string `json:"via,omitempty"`    // create: "" = repository; "command" = HTTPDomainCreateHandler over the server's repository adapter (availability check + create, the path a client's command takes)
 	Anon   bool   `json:"anon,omitempty"`   // delete: the caller has no identity (client id 0: unauthenticated connection / internal caller)
 }
 
@@ -297,8 +301,35 @@ func runProxyCase(c PCase) pResult {
 		case "online":
 			delete(w.sess.offline, client)
 		case "create":
-			mp, err := w.repo.CreateMapping(ctx, client, pNames[ni].sub, pNames[ni].base, targetHost(client), targetPort(client))
 			cur := w.owner[ni]
+			if st.Via == "command" {
+				// the holder's lifetime is whatever the history made it: never expires (created
+				// through the repository: ExpiresAt 0), future or past (update steps, command TTL)
+				r.feat("claim-through-command-path")
+				ad := appserver.NewHTTPDomainRepositoryAdapter(w.repo)
+				h := command.NewHTTPDomainCreateHandler(ad, ad)
+				body, _ := json.Marshal(packet.HTTPDomainCreateRequest{TargetURL: fmt.Sprintf("http://%s:%d", targetHost(client), targetPort(client)), Subdomain: pNames[ni].sub, BaseDomain: pNames[ni].base})
+				resp, herr := h.Handle(&command.CommandContext{ConnectionID: "conn-h", ClientID: client, RequestBody: string(body)})
+				okc := herr == nil && resp != nil && resp.Success
+				switch {
+				case okc && cur != nil && !cur.expired:
+					got, _ := w.repo.LookupByDomain(ctx, name)
+					fail("name-claimed-twice", fmt.Sprintf("HTTPDomainCreate(%s) by client %d was accepted while %s of client %d owns the name (status %s, not expired); the name now resolves to %+v", name, client, cur.id, cur.client, cur.status, got), si)
+				case okc:
+					// free name, or an expired holder that the implementation chose to reclaim
+					got, lerr := w.repo.LookupByDomain(ctx, name)
+					if lerr != nil || got.ClientID != client {
+						fail("fresh-claim-does-not-route", fmt.Sprintf("HTTPDomainCreate(%s) by client %d accepted, lookup = %+v %v", name, client, got, lerr), si)
+						break
+					}
+					if cur != nil {
+						w.lastID[ni] = cur.id
+					}
+					w.owner[ni] = &pOwner{id: got.ID, client: client, host: got.TargetHost, port: got.TargetPort, status: got.Status, expired: got.ExpiresAt != 0 && got.ExpiresAt < time.Now().Unix()}
+				}
+				break
+			}
+			mp, err := w.repo.CreateMapping(ctx, client, pNames[ni].sub, pNames[ni].base, targetHost(client), targetPort(client))
 			switch {
 			case cur != nil && err == nil:
 				fail("name-claimed-twice", fmt.Sprintf("CreateMapping(%s) by client %d succeeded (%s) while %s of client %d owns the name", name, client, mp.ID, cur.id, cur.client), si)
@@ -569,7 +600,7 @@ func genHost(t *rapid.T, l string) string {
 func genPStep(t *rapid.T, l string) PStep {
 	switch rapid.IntRange(0, 11).Draw(t, l+"do") {
 	case 0, 1:
-		return PStep{Do: "create", Name: rapid.SampledFrom(nameDraw).Draw(t, l+"n"), Client: rapid.IntRange(0, 2).Draw(t, l+"c")}
+		return PStep{Do: "create", Name: rapid.SampledFrom(nameDraw).Draw(t, l+"n"), Client: rapid.IntRange(0, 2).Draw(t, l+"c"), Via: rapid.SampledFrom([]string{"", "", "command"}).Draw(t, l+"via")}
 	case 2:
 		return PStep{Do: "delete", Name: rapid.SampledFrom(nameDraw).Draw(t, l+"n"), Client: rapid.IntRange(0, 2).Draw(t, l+"c"), Stale: rapid.IntRange(0, 3).Draw(t, l+"stale") == 0, Anon: rapid.IntRange(0, 4).Draw(t, l+"anon") == 0}
 	case 3:
